@@ -559,6 +559,14 @@ class Tdf:
 
         comment = comment if comment is not None else old_entry.comment
 
+        # once the old block is gone, add_block needs all unused slots at the
+        # end of the table: check that before anything is removed
+        remaining = [i.type for i in self.entries if i is not old_entry]
+        remaining.append(BlockType.unusedSlot)
+        first_unused = remaining.index(BlockType.unusedSlot)
+        if any(i != BlockType.unusedSlot for i in remaining[first_unused:]):
+            raise IOError("All unused slots must be at the end of the file")
+
         # make sure the new block and its table entry (format, dates,
         # comment) can be written before the old block is removed
         TdfEntry(
